@@ -144,15 +144,64 @@ func c04Words(maxLen int) []string {
 	return out
 }
 
-func c04RunWord(word string, p *vx.Part) (string, string, string) {
+// c04OfferForged plays a hostile peer: for the block just appended it offers the dominant chains
+// (region and prime) pending-ETX bundles and roll-ups that carry the block's real header but a
+// different ETX list. Each must be refused, and - checked by the monitor on everything that follows -
+// must not influence what is later handed down ("altered in transit").
+func c04OfferForged(s *scen, blk *types.WorkObject) (string, string) {
+	real := blk.OutboundEtxs()
+	var forged types.Transactions
+	if len(real) > 0 {
+		in := real[0]
+		to := *in.To()
+		forged = append(forged, types.NewTx(&types.ExternalTx{To: &to, Gas: in.Gas(), Value: new(big.Int).Mul(in.Value(), big.NewInt(1000)), EtxType: in.EtxType(), OriginatingTxHash: in.OriginatingTxHash(), ETXIndex: in.ETXIndex(), Sender: in.ETXSender(), Data: in.Data()}))
+		forged = append(forged, real[1:]...)
+		forged = append(forged, real[0]) // and a duplicate of the genuine first one
+	} else {
+		to := s.k[1].Addr
+		forged = append(forged, types.NewTx(&types.ExternalTx{To: &to, Gas: 21000, Value: big.NewInt(1e18), EtxType: types.DefaultType, OriginatingTxHash: blk.Hash(), ETXIndex: 0, Sender: s.k[0].Addr}))
+	}
+	for ctx := 0; ctx <= 1; ctx++ {
+		if s.n.Sl[ctx] == nil {
+			continue
+		}
+		err := s.n.Sl[ctx].AddPendingEtxs(types.PendingEtxs{Header: blk.ConvertToPEtxView(), OutboundEtxs: forged})
+		if err == nil {
+			return "forged-pending-etxs-accepted", fmt.Sprintf("context %d accepted a pending-ETX bundle for block %d whose list (%d ETXs, first value x1000) does not hash to the header's ETX hash", ctx, blk.NumberU64(2), len(forged))
+		}
+		err = s.n.Sl[ctx].AddPendingEtxsRollup(types.PendingEtxsRollup{Header: blk.ConvertToPEtxView(), EtxsRollup: forged})
+		if err == nil {
+			return "forged-rollup-accepted", fmt.Sprintf("context %d accepted a pending-ETX roll-up for block %d whose list does not hash to the header's roll-up hash", ctx, blk.NumberU64(2))
+		}
+	}
+	return "", ""
+}
+
+// c04RunWord walks one word; hostile=true additionally offers forged pending-ETX bundles after
+// every block (c04OfferForged).
+func c04RunWord(word string, p *vx.Part, hostile bool) (string, string, string) {
 	s, err := newScen(3, false, nil)
 	if err != nil {
 		return "harness", err.Error(), ""
 	}
 	defer s.close()
 	full := c04Warmup + word
+	var hk, hd string
+	if hostile {
+		// the hostile peer's bundle arrives before the genuine one
+		s.n.PreDeliver = func(blk *types.WorkObject) {
+			if k, d := c04OfferForged(s, blk); k != "" && hk == "" {
+				hk, hd = k, fmt.Sprintf("block %d: %s", blk.NumberU64(2), d)
+			}
+		}
+	}
 	for i := 0; i < len(full); i++ {
 		if err := s.runWord(full[i : i+1]); err != nil {
+			if hostile {
+				// the same word walks through without the hostile peer (checked first): the refusal is
+				// an effect of the forged bundles
+				return "forged-bundle-blocks-chain", fmt.Sprintf("word %q step %d, hostile peer offering forged pending-ETX bundles: %v", word, i, err), ""
+			}
 			return "harness", fmt.Sprintf("word %q step %d: %v", word, i, err), ""
 		}
 		if full[i] == 'c' {
@@ -161,12 +210,18 @@ func c04RunWord(word string, p *vx.Part) (string, string, string) {
 		if p != nil {
 			p.Transitions++
 		}
+		if hk != "" {
+			return hk, fmt.Sprintf("word %q step %d: %s", word, i, hd), ""
+		}
 		if k, d := c04Monitor(s, false, 0); k != "" {
 			return k, fmt.Sprintf("word %q after step %d: %s", word, i, d), ""
 		}
 	}
 	emitLimit := s.blocks[len(s.blocks)-1].NumberU64(2) + 1
 	if err := s.runWord(c04Drain); err != nil {
+		if hostile {
+			return "forged-bundle-blocks-chain", fmt.Sprintf("word %q drain, hostile peer offered forged pending-ETX bundles before: %v", word, err), ""
+		}
 		return "harness", fmt.Sprintf("word %q drain: %v", word, err), ""
 	}
 	if k, d := c04Monitor(s, true, emitLimit); k != "" {
@@ -206,7 +261,7 @@ func c04Routing(c *vx.Ctx) {
 			p.Incomplete("deadline")
 			return
 		}
-		key, desc, cls := c04RunWord(w, p)
+		key, desc, cls := c04RunWord(w, p, false)
 		if key == "harness" {
 			c.HarnessError(desc)
 			return
@@ -215,7 +270,7 @@ func c04Routing(c *vx.Ctx) {
 		if key != "" {
 			p.Outcome("VIOLATED:" + key)
 			w := w
-			if c.Confirm(desc, func() string { k, _, _ := c04RunWord(w, nil); return k }) {
+			if c.Confirm(desc, func() string { k, _, _ := c04RunWord(w, nil, false); return k }) {
 				c.Violate("routing", "routing:"+key, desc, map[string]string{"word": w})
 			}
 			continue
@@ -224,6 +279,31 @@ func c04Routing(c *vx.Ctx) {
 		if i%23 == 0 {
 			p.Sample(map[string]string{"word": w, "result": cls})
 		}
+		// the same word with a hostile peer offering forged bundles after every block
+		hkey, hdesc, hcls := c04RunWord(w, p, true)
+		if hkey == "harness" {
+			c.HarnessError(hdesc)
+			return
+		}
+		p.Traces++
+		if hkey == "" && hcls != cls {
+			hkey, hdesc = "forged-bundle-changes-routing", fmt.Sprintf("word %q: with forged bundles offered the walk ends with %s, without them with %s", w, hcls, cls)
+		}
+		if hkey != "" {
+			p.Outcome("VIOLATED:hostile:" + hkey)
+			w := w
+			if c.Confirm(hdesc, func() string {
+				k, _, c2 := c04RunWord(w, nil, true)
+				if k == "" && c2 != cls {
+					k = "forged-bundle-changes-routing"
+				}
+				return k
+			}) {
+				c.Violate("routing", "routing:hostile:"+hkey, hdesc, map[string]string{"word": w, "hostile": "1"})
+			}
+			continue
+		}
+		p.Outcome("hostile:" + hcls)
 	}
 }
 
@@ -429,7 +509,12 @@ func c04ReplayRoute(c *vx.Ctx, v vx.Violation, raw []byte) string {
 		return "bad replay: " + err.Error()
 	}
 	if v.Part == "routing" {
-		_, d, _ := c04RunWord(cs["word"], nil)
+		_, d, cls := c04RunWord(cs["word"], nil, cs["hostile"] != "")
+		if d == "" && cs["hostile"] != "" {
+			if _, _, plain := c04RunWord(cs["word"], nil, false); plain != cls {
+				d = fmt.Sprintf("word %q: with forged bundles offered the walk ends with %s, without them with %s", cs["word"], cls, plain)
+			}
+		}
 		return d
 	}
 	_, d := c04InclCase(nil, nil, cs["prefix"], c04InclMutations(), cs["mutation"])
